@@ -320,6 +320,14 @@ impl Core {
         self.monitor = true;
         self.phase = 0;
         self.ramwr = false;
+        // drawing counters start at the first monitored call (an init sequence may reuse
+        // the address opcodes on a vendor page, e.g. RM67162)
+        self.pixels = 0;
+        self.burst_px = 0;
+        self.ramwr_count = 0;
+        self.caset_count = 0;
+        self.raset_count = 0;
+        self.pixel_calls = 0;
     }
 
     #[inline(always)]
